@@ -27,7 +27,19 @@
   harness/pqrun/gen.go with the harness's SplitMix64 generator).
   Calls that fail with `err:oom` (bounded files) start a transaction that is rolled back: they are replayed
   with the failing-flush semantics of Model/PQWriterFail.lean (as in `pqmodel`), outside the proven step
-  relation.
+  relation (`producerFault`, `consumerFault`).  The transaction can fail before `pending.Lock` (no lock event but
+  `begin-wait->op`; the reserved lock must have been free) or AT THE COMMIT, after `begin-wait->commit-pending`
+  (out of space when the commit allocates its meta pages; next lock event `commit-pending->op`): then pending
+  and reserved are released by the rollback; buffer and file are as before (`failFlush`), a failed `Next` has
+  finished its event.
+  Racy windows of the harness (a thread woken by the END of the other thread's transaction - commit or
+  rollback - runs concurrently with it until both are parked): its `ret` line can precede the other thread's
+  `ret` line, lock snapshots taken meanwhile are unreliable, and its first park point may go unrecorded.
+  The driver is tolerant exactly there: (a) `finishOther`: if a thread's completing step is disabled (or a failed
+  producer call finds the reserved lock held) and the other thread is at the commit stage - for a successful
+  call only after its `…->commit-exclusive` line was seen - the other thread's commit (or, if its recorded call
+  failed, its rollback) is taken first and compared at its own `ret` line; (b) lock snapshots are not compared
+  while a thread is `woken` or such a result is outstanding; (c) `catchUp`: unrecorded lock steps of a woken thread.
 -/
 import TxVerif.Model.PQQueueConc
 import TxVerif.Model.PQQueueDriver
@@ -137,6 +149,10 @@ structure ConcSim where
   /-- the same for a transaction of the thread that FAILED (rolled back): its effect was already applied -/
   preFaultP : Bool := false
   preFaultC : Bool := false
+  /-- the thread's `…->commit-exclusive` transition was recorded: it holds the exclusive lock and will commit as
+      soon as it runs (cleared at its `ret` line) -/
+  exclP : Bool := false
+  exclC : Bool := false
 
 inductive ConcRes where
   | ok (s : ConcSim)
@@ -222,6 +238,7 @@ def finishOther (sim : ConcSim) (t : Bool) : ConcSim :=
     | none => sim
     | some call =>
       if call.fault then { producerFault sim call with preFaultP := true }
+      else if !sim.exclP then sim
       else
         match sim.s.step sim.cfg false with
         | some s' => if s'.bad then sim else { sim with s := s', preP := some (s'.outP.getLastD .ok) }
@@ -232,6 +249,7 @@ def finishOther (sim : ConcSim) (t : Bool) : ConcSim :=
     | none => sim
     | some call =>
       if call.fault then { consumerFault sim with preFaultC := true }
+      else if !sim.exclC then sim
       else
         match sim.s.step sim.cfg true with
         | some s' => if s'.bad then sim else { sim with s := s', preC := some (s'.outC.getLastD .ok) }
@@ -296,7 +314,10 @@ def concLine (sim : ConcSim) (l : ConcLine) : ConcRes :=
   match toks with
   | "ret" :: "hdr" :: rest => concHdr sim rest
   | ["ret", "close"] => .ok sim
-  | "ret" :: _ => concRet sim l
+  | "ret" :: _ =>
+    match concRet sim l with
+    | .ok s => .ok (if l.tid then { s with exclC := false } else { s with exclP := false })
+    | r => r
   | [e] =>
     if e.startsWith "blocked@" then
       match sim.s.step sim.cfg l.tid with
@@ -339,7 +360,8 @@ def concLine (sim : ConcSim) (l : ConcLine) : ConcRes :=
             | _, _ => .ok sim
         else if to == "commit-exclusive" then
           if !inTx then .mismatch "commit without a transaction in the model" else
-          if sim.s.lock.shared != 0 then .mismatch "exclusive lock acquired while the model has a reader" else .ok sim
+          if sim.s.lock.shared != 0 then .mismatch "exclusive lock acquired while the model has a reader" else
+          .ok (if l.tid then { sim with exclC := true } else { sim with exclP := true })
         else .ok sim
       | _ => .skip s!"unknown event {e}"
   | _ => .skip s!"unknown event {l.ev}"
